@@ -168,8 +168,10 @@ def configs(tier: str) -> List[Cfg]:
     classes = dw.start_classes("quick")
     if tier == "quick":
         stats_list = [(), ("a", "ab")]
-        packs = ["base", "ver:a,b", "ver:e,a", "verfirst:a,ab", "norm+sym", "inf2", "rfac", "rfac2", "sfac", "oneway+inf1", "onewayexp+inf1", "oneway+inf1+sym", "rfac3", "oneway2", "oneway2+inf1"]
-        opts = [{}]
+        packs = ["base", "ver:a,b", "ver:e,a", "ver:e", "ver:b,ab", "verfirst:a,ab", "verfirst:e", "norm+sym", "sym", "inf1",
+                 "inf2", "inf2r", "rfac", "sfac", "two", "noinit", "dropempty", "ver:a,b+sym", "ver:a+inf2", "ver:a,b+rfac",
+                 "base+iter", "inf1+iter", "ver:a,b+iter", "rfac2", "oneway", "oneway+inf1", "onewayexp+inf1", "oneway+inf1+sym", "oneway+inf2", "oneway+inf1+iter", "rfac3", "oneway2", "oneway2+inf1", "oneway2+sym"]
+        opts = [{}, {"expand_verified": True}]
     else:
         stats_list = [(), ("a",), ("a", "ab")]
         packs = ["base", "ver:a,b", "ver:e,a", "ver:e", "ver:b,ab", "verfirst:a,ab", "verfirst:e", "norm+sym", "sym", "inf1",
